@@ -72,6 +72,13 @@ def gen(rng, tier, index):
     # frames
     if rng.random() < 0.7:
         motion = {"amp": rng.uniform(-0.3, 0.3, 3).tolist(), "w": float(rng.uniform(1, 6)), "axis": rng.normal(size=3).tolist(), "alpha": float(rng.uniform(0, 0.8))} if rng.random() < 0.7 else None
+        if motion is not None:
+            style = rng.random()
+            if style < 0.25:
+                motion["amp"] = [0.0, 0.0, 0.0]  # rotating about a fixed point (constant r_OP, callable A_IB)
+                motion["alpha"] = float(rng.uniform(0.2, 0.8))
+            elif style < 0.5:
+                motion["alpha"] = 0.0  # translating only
         scene["frames"].append({"r": rng.uniform(-1, 1, 3).tolist(), "p": rot.rand_quat(rng).tolist(), "motion": motion})
     # forces
     for _ in range(int(rng.integers(0, 3))):
